@@ -70,6 +70,11 @@ def cases(tier, rng):
             a = float(rng.uniform(1, 10))
             target = {"Z": a, "A": a}
         pts = cards.rand_points(rng, g["xgrid"], n=2, q2lo=3.0, q2hi=3e3)
+        if i % 3 == 1:
+            # the massless-only / massive-only parts of a result are rotated like the full one (the switch is read in every scheme)
+            cfg["theory"]["FONLLParts"] = cards.pick(rng, ["massive", "massless", "massive"])
+            if cfg["theory"]["FONLLParts"] == "massive" and rng.random() < 0.6:
+                heavy = cards.pick(rng, ["total", "charm", "bottom"])
         out.append(dict(id=f"c12-{i}", kind=kind, heavy=heavy, tclass=tc, target=target, grid=g, points=pts, **cfg))
     return out
 
